@@ -57,6 +57,8 @@ MacrosBoundary ==
     \cup { [op |-> "nest", val |-> I("int32", -1), n |-> n] : n \in {6, 7, 13, 14, 15, 16} }
 
 NoMacros == {}
+\* fields written through a function of the caller, which succeeds or reports an error
+MacrosFn == { [op |-> "field_fn", tag |-> t, val |-> I("int32", 127), fails |-> f] : t \in {1, 2}, f \in BOOLEAN }
 \* copy / merge into a nested message that already has one of the source's tags (1 or 300) or none of them (2)
 MacrosSubCopy == { [op |-> "sub_copy", tag |-> tg, tag2 |-> t2, val |-> I("int32", 127), src |-> s] :
                       tg \in {2, 255, 256}, t2 \in {1, 2, 300}, s \in {SrcMsgA, SrcMsgB} }
